@@ -904,11 +904,11 @@ def _twin_for(spec, ops=None):
 class C16(SolverSuite):
     prop = "C16"
     level = "fault_enumeration"
-    quick_runs = 45
+    quick_runs = 60
     thorough_runs = 800
     chunk = 1
     rule = ("for every sampled (objective, box, parameters) the fault-free twin gives T trials; then EVERY evaluation index k in "
-            "2..T (stride-sampled when T>120) x every exception kind (ValueError, ZeroDivisionError, MemoryError, StopIteration, "
+            "2..T (sampled when T>40 in the quick tier, T>120 in the thorough tier) x every exception kind (ValueError, ZeroDivisionError, MemoryError, StopIteration, "
             "KeyboardInterrupt, SystemExit, GeneratorExit, private BaseException) x {raised before / after the value holder was "
             "written} is executed as its own simulated run (driver: optional DoGlobalIteration prefix < k, then Solve). Oracle: "
             "Solve returns; objective log = twin's first k-1 trials + the failed call; reported trials = k-1; best = a minimiser of "
@@ -938,8 +938,9 @@ class C16(SolverSuite):
                               faults=[{"a": "S0", "at_eval": 2, "exc": "ValueError", "when": "before"}])
             return
         ks = list(range(2, T + 1))
-        if len(ks) > 120:
-            ks = sorted(rng.sample(ks, 120))
+        cap = 40 if tier == "quick" else 120     # (one spec is one task: a long serial tail otherwise)
+        if len(ks) > cap:
+            ks = sorted(rng.sample(ks, cap))
         clock = G.gen_clock(rng)
         for k in ks:
             for exc in FAULT_KINDS:
